@@ -510,6 +510,9 @@ def mOpOpsCoarse {X} (safe : Bool) (f : MFlags) : Op X → List MPrim × MFlags
   | .setRecalc => ([], { f with recalc := true })
   | .poke _ => ([], f)
 
+/-- the user sets `recalculate_r_crit_this_timestep` -/
+def mSetRcrit (f : MFlags) : MFlags := { f with recalcR := true }
+
 /-- API ops for MERCURIUS: `setRecalc` sets `recalculate_coordinates_this_timestep` -/
 def mOpOps {X} (safe : Bool) (f : MFlags) : Op X → List MPrim × MFlags
   | .step => mStepOps safe f
@@ -623,6 +626,9 @@ inductive DtOp where
   | forceSync
   | begin          -- last_full_dt := dt ; dt_last_done := 0
   | flipDt | setDtLast | restoreDt
+  /-- the user sets `ri_mercurius.recalculate_r_crit_this_timestep = 1` (after changing a mass or a
+      radius); only MERCURIUS has this flag (`mSetRcrit`) -/
+  | setRcrit
   deriving Repr
 
 /-- the synchronize that precedes an assignment to `dt` -/
@@ -655,6 +661,7 @@ def dtOk {F : Type} (stepF syncF forceF : F → F) (isS : F → Bool) : List DtO
   | .api _ :: r, f => dtOk stepF syncF forceF isS r f
   | .forceSync :: r, f => dtOk stepF syncF forceF isS r (forceF f)
   | .begin :: r, f => dtOk stepF syncF forceF isS r f
+  | .setRcrit :: r, f => dtOk stepF syncF forceF isS r f
   | .flipDt :: r, f | .setDtLast :: r, f | .restoreDt :: r, f =>
     isS f && dtOk stepF syncF forceF isS r f
 
